@@ -7,6 +7,10 @@ import ScionVerif.Model.AddrText
 primitives: `wslist` (all white-space code points), `digits <radix>` (all `cp:value`), `consts`.
 kinds: isd asn ia svc host ip ip4 ip6 addr addrsvc addrv4 addrv6 ipaddr sock socksvc sockv4 sockv6 ipsock
        legacysock txt.   host values: `4:<u32>` `6:<u128>` `s:<u16>`.
+`r <rr> …` (record level of the TXT resolver; one token per TXT resource record: its character-strings as hex
+joined by `,`, `-` = empty character-string, `0` = a record without character-strings)
+                                      →  `ok <addr;addr;…>` | `novalid <hex raw> …` | `panic`
+`u <hex>` (strict UTF-8 decoding as the driver does it) → `ok <code points>` | `err`
 -/
 open ScionVerif.AddrText Driver
 
@@ -111,6 +115,31 @@ def doShow : List String → Option Str
   | "txt" :: rest => (parseAddrArgs rest).map (showTxt C)
   | _ => none
 
+/-- `String::from_utf8` of the record level: Lean's own strict UTF-8 validator (validated against std's by
+    the harness on every record it sends) -/
+def U : Utf8Codec where
+  decode bs := (String.fromUTF8? (ByteArray.mk (bs.map UInt8.ofNat).toArray)).map String.toList
+  encode s := (String.ofList s).toUTF8.toList.map UInt8.toNat
+
+def parseRR (tok : String) : Option TxtRR :=
+  if tok == "0" then some [] else
+  (tok.splitOn ",").foldr (fun h acc =>
+    match parseHex h, acc with
+    | some bs, some rest => some (bs.map UInt8.toNat :: rest)
+    | _, _ => none) (some [])
+
+def parseRRs : List String → Option (List TxtRR)
+  | [] => some []
+  | t :: rest =>
+    match parseRR t, parseRRs rest with
+    | some rr, some more => some (rr :: more)
+    | _, _ => none
+
+def resolvedStr : TxtResolved → String
+  | .ok l => "ok " ++ ";".intercalate (l.map addrStr)
+  | .noValid inv => " ".intercalate ("novalid" :: inv.map encodeStr)
+  | .panic => "panic"
+
 /-- all scalar values (no surrogates) satisfying `p`, as decimal code points -/
 def scanChars (f : Char → Option String) : String :=
   let out := Nat.fold 0x110000 (fun n _ acc =>
@@ -125,7 +154,8 @@ def constsLine : String :=
   let tab := fun (t : List (Str × Nat)) => ",".intercalate (t.map (fun p => s!"{String.ofList p.1}={p.2}"))
   s!"ISD_BITS={ISD_BITS} ASN_BITS={ASN_BITS} ASN_MAX={ASN_MAX} ASN_DISPLAY_DECIMAL_MAX={ASN_DISPLAY_DECIMAL_MAX} " ++
   s!"ASN_PARSE_DECIMAL_MAX={ASN_PARSE_DECIMAL_MAX} IA_BITS={IA_BITS} SVC_BITS={SVC_BITS} SVC_MULTICAST_FLAG={SVC_MULTICAST_FLAG} " ++
-  s!"PORT_BITS={PORT_BITS} SHOW={tab SVC_SHOW_NAMES} PARSE={tab SVC_PARSE_NAMES} TXT_PREFIX={String.ofList TXT_PREFIX}"
+  s!"PORT_BITS={PORT_BITS} SHOW={tab SVC_SHOW_NAMES} PARSE={tab SVC_PARSE_NAMES} TXT_PREFIX={String.ofList TXT_PREFIX} " ++
+  s!"TXT_INVALID_UTF8_RAW={String.ofList TXT_INVALID_UTF8_RAW} TXT_UTF8_STRICT={TXT_UTF8_STRICT}"
 
 def step (st : Unit) : List String → Unit × String
   | ["p", kind, hx] =>
@@ -138,6 +168,17 @@ def step (st : Unit) : List String → Unit × String
     | some r => (st, scanChars (fun c => (digitVal r c).map (fun d => s!"{c.toNat}:{d}")))
     | none => (st, "bad-op")
   | ["consts"] => (st, constsLine)
+  | "r" :: toks =>
+    match parseRRs toks with
+    | some rrs => (st, resolvedStr (resolveTxtRRs C U rrs))
+    | none => (st, "bad-op")
+  | ["u", hx] =>
+    match parseHex hx with
+    | some bs =>
+      (st, match U.decode (bs.map UInt8.toNat) with
+        | some s => " ".intercalate ("ok" :: s.map (fun c => toString c.toNat))
+        | none => "err")
+    | none => (st, "bad-op")
   | "s" :: args =>
     match doShow args with
     | some s => (st, encodeStr s)
